@@ -75,7 +75,8 @@ Failed(m, n, ev, okModel, cf, modelConnected) ==
         out == ev.out
     IN {x \in {"C04-SensitiveBeforeTls", "C04-SecretBeforeTls", "C04-AuthenticatedUnencrypted", "C04-DoesNotGiveUp",
                "C10-DownButSession", "C10-CutNotDisconnected", "C10-SessionTwice", "C10-SessionDuringNegotiation",
-               "C10-SessionBeforeNegotiationFinished", "C10-RequestCompletedTwice", "C10-StaleStateOnNewStream"} :
+               "C10-SessionBeforeNegotiationFinished", "C10-RequestCompletedTwice", "C10-RequestRetainedNotResumable",
+               "C10-StaleStateOnNewStream"} :
         CASE x = "C04-SensitiveBeforeTls" -> ~P_NoLeak(tls, out)
           [] x = "C04-SecretBeforeTls" -> tls = "Required" /\ ev.rawLeak
           [] x = "C04-AuthenticatedUnencrypted" -> ~P_NoAuthUnencrypted(tls, p.enc, p.authed, p.session, p.sock)
@@ -89,6 +90,8 @@ Failed(m, n, ev, okModel, cf, modelConnected) ==
           [] x = "C10-SessionDuringNegotiation" -> okModel /\ cf /\ ~P_SessionOnlyWhenDone(p.session, p.sock, p.lst)
           [] x = "C10-SessionBeforeNegotiationFinished" -> okModel /\ cf /\ NConnected(ev.sig) > modelConnected
           [] x = "C10-RequestCompletedTwice" -> p.iqDone > 1
+          \* C10_RequestsSettled on observed facts: disconnected and not resumable, yet a request is still pending
+          [] x = "C10-RequestRetainedNotResumable" -> ~ev.hang /\ p.sock = "Off" /\ p.state = 0 /\ ~p.canResume /\ p.iq = "out"
           [] x = "C10-StaleStateOnNewStream" ->
                 /\ ev.e = "Connect" /\ ~ev.hang /\ p.sock = "On"
                 /\ ~( /\ Len(out) = 1 /\ out[1].k = "StreamOpen" /\ ~out[1].enc
